@@ -93,6 +93,21 @@ def measure(src, timeout=120):
     return int(m.group(1))
 
 
+def memcheck(src, timeout=180):
+    """valgrind memcheck on one probe process handling the request: ("clean" | "errors" | "inconclusive", detail)."""
+    req = json.dumps({"files": {"main.asm": src, "b.asm": "x: nop"}, "ops": OPS + ["listing", "merge", "vice"], "opts": {"pass_cap": 50, "work_cap": 2_000_000}}) + "\n"
+    try:
+        p = subprocess.run(["valgrind", "--tool=memcheck", "--error-exitcode=99", "--errors-for-leak-kinds=none", "--leak-check=no", "-q", probe_bin()],
+                           input=req.encode(), stdout=subprocess.PIPE, stderr=subprocess.PIPE, timeout=timeout)
+    except subprocess.TimeoutExpired:
+        return "inconclusive", "watchdog"
+    if p.returncode == 99:
+        return "errors", p.stderr.decode("utf8", "replace")[-1500:]
+    if p.returncode != 0 or not p.stdout.strip():
+        return "inconclusive", "exit %s: %s" % (p.returncode, p.stderr.decode("utf8", "replace")[-200:])
+    return "clean", ""
+
+
 def judge(counts):
     """counts: instruction counts at SIZES (None = no measurement). -> ("ok"|"superpolynomial"|"inconclusive", increments)"""
     incs = []
@@ -137,4 +152,15 @@ def run_families(acc, names):
             acc.nontriv("growth", name)
         if len(acc.samples) < 3:
             acc.sample({"growth_family": name, "depths": list(SIZES), "instructions": counts})
+        # sanitizer slice: the same family (depth 7) through every stage under valgrind memcheck - invalid reads/writes and
+        # uses of uninitialised values in the code under test or its dependencies (the repository itself has no `unsafe`)
+        verdict, detail = memcheck(f(7))
+        acc.evaluations += 1
+        acc.count("memcheck." + verdict)
+        if verdict == "errors":
+            first = next((l for l in detail.splitlines() if "==" in l and ("Invalid" in l or "uninitialised" in l or "Conditional" in l)), detail[:120])
+            acc.violation("memcheck|%s" % re.sub(r"==\d+==\s*", "", first)[:60], "valgrind memcheck reports errors for %s: %s" % (name, detail[-600:]),
+                          {"family": name, "input": f(7), "report": detail})
+        elif verdict == "inconclusive":
+            acc.inconc("memcheck of %s: %s" % (name, detail))
     return acc
